@@ -16,6 +16,23 @@ def _lookup(sg):
     except Exception as e:  # the analyzer must answer for a valid crystal
         return {"sg": sg, "error": "%s: %s" % (type(e).__name__, e), "letters": c["letters"]}
     o.update({"ev": "info", "sg": sg, "letters": c["letters"], "natoms": len(c["atoms"])})
+    # the same crystal described by supercells whose shape breaks the lattice symmetry (2x1x1, 1x1x2, sheared det 3) and by a
+    # primitive-lattice basis: what is reported for "a crystal of that group" must not depend on the description
+    from .. import crystals
+    from ..common import rng_for
+
+    o["more"] = []
+    rng = rng_for("c14-present", sg)
+    for pi, prim in ((3, False), (6, False), (5, True), (11, False)):
+        try:
+            at, pres = crystals.present(c["atoms"], rng, p_index=pi, primitive=prim)
+            if len(at) > 400 or crystals.spg_number(at, crystals.TOL) != sg:
+                continue
+            o2 = symobs.obs_info(at)
+            o2.update({"ev": "info", "sg": sg, "letters": c["letters"], "natoms": len(at), "presentation": {"p_index": pi, "primitive": prim}})
+            o["more"].append(o2)
+        except Exception as e:
+            o["more"].append({"sg": sg, "error": "%s: %s" % (type(e).__name__, e), "letters": c["letters"], "presentation": {"p_index": pi, "primitive": prim}})
     # history: the tables are module-level objects that every analysis reads; after ordinary use (full analyses of several
     # crystals of this group, each also with its species interchanged so that other normalizers are selected) the rows of
     # this group are exported again and judged again if they differ from the rows at import
@@ -114,8 +131,12 @@ def run(tier):
         if "error" in o:
             run.violation("lookup sg=%d raises" % o["sg"], "analyzer raised on a crystal of group %d: %s" % (o["sg"], o["error"]), o)
             continue
-        o["tid"] = len(recs) + 1
-        recs.append(o)
+        for o_ in [o] + o.pop("more", []):
+            if "error" in o_:
+                run.violation("lookup sg=%d raises" % o_["sg"], "analyzer raised on a crystal of group %d: %s" % (o_["sg"], o_["error"]), o_)
+                continue
+            o_["tid"] = len(recs) + 1
+            recs.append(o_)
     run.notes["lookup_crystals_skipped"] = skipped
     run.notes["analyses_run_before_tables_reexported"] = n_used
     run.notes["groups_whose_rows_changed_through_use"] = sorted(after)
